@@ -42,6 +42,18 @@ CLAIMS = {
     "Row allocations are assumed to request >= 1 row (condim in {1,3,4,6}).",
     "design_ref": "DESIGN.md 3 (C16), 9.1",
   },
+  "C36": {
+    "text": "A result can depend on process history only through state that outlives a call. Over the real source of every module: "
+    "(G1) every module-level object mutated by a function is in the declared frame {warp_util._KERNEL_CACHE, warp_util._STACK}; (G2) no "
+    "functools memoisation on functions with mutable or identity-hashed arguments; (G3) for each of the 75 @cache_kernel factories, "
+    "everything the produced kernel depends on is distinguished by the cache key (value-typed parameters, lists built by the caller and "
+    "hashed by content, sized objects used only through .size, unique factory names, no module-level mutable object read). Found and "
+    "repaired: the process-global primitive-collision dispatch lists. (G4) the cache_kernel wrapper itself is exercised natively on 11 "
+    "argument shapes -- a bounded stand-in, not counted as proved.",
+    "note": _BASE + "Pure source analysis (no SMT needed: the obligations are about which objects are written / read). Warp's own module "
+    "cache and CUDA graph state are external. G4 is bounded.",
+    "design_ref": "DESIGN.md 3 (C36)",
+  },
   "C37": {
     "text": "The real orchestration code of forward/step/step1/step2 is walked in source order (host calls inlined with parameter "
     "substitution, conditions kept as propositional atoms; 350+ launches) and every launch is joined with the access summary of the "
